@@ -15,6 +15,7 @@ mod ser_gen;
 mod ser_oracle;
 mod ser_ws;
 mod suite_ser;
+mod suite_fws;
 mod suite_tree;
 mod tree;
 
@@ -42,6 +43,7 @@ fn main() {
         "idmap" => suite_idmap::run(seed, count, tier, &mut sink),
         "axes" => suite_axes::run(seed, count, tier, &mut sink),
         "ser" => suite_ser::run(seed, count, tier, &mut sink),
+        "fws" => suite_fws::run(seed, count, tier, &mut sink),
         _ => {
             eprintln!("unknown suite {}", suite);
             std::process::exit(2);
